@@ -22,7 +22,71 @@ pub enum Op {
 
 /// option values: (tv_sec, tv_usec)
 /// (0, 2_000_000) is rejected by the kernel (EDOM): the option keeps its previous value
-const VALS: [(i64, i64); 5] = [(0, 0), (0, 8000), (0, 2_000_000), (1, 0), (-1, 0)];
+const VALS: [(i64, i64); 5] = [(0, 0), (0, 8000), (0, 2_000_000), (0, 30_000), (-1, 0)];
+
+/// an unlimited call is cut off by the scripted kernel after this much virtual time
+const CAP_NS: u64 = 100_000_000;
+
+thread_local! {
+    /// the scripted kernel: would-block until `until` (virtual ns), then data
+    static UNTIL: std::cell::Cell<u64> = const { std::cell::Cell::new(0) };
+    static WAITS: std::cell::Cell<u32> = const { std::cell::Cell::new(0) };
+}
+
+fn k_answer(len: usize) -> isize {
+    if open_coroutine_core::common::now() >= UNTIL.with(std::cell::Cell::get) {
+        return len.min(1) as isize;
+    }
+    sc::set_errno(libc::EAGAIN);
+    -1
+}
+extern "C" fn k_read(_: i32, _: *mut std::ffi::c_void, len: usize) -> isize {
+    k_answer(len)
+}
+extern "C" fn k_recv(_: i32, _: *mut std::ffi::c_void, len: usize, _: i32) -> isize {
+    k_answer(len)
+}
+extern "C" fn k_readv(_: i32, _: *const libc::iovec, _: i32) -> isize {
+    k_answer(1)
+}
+extern "C" fn k_write(_: i32, _: *const std::ffi::c_void, len: usize) -> isize {
+    k_answer(len)
+}
+extern "C" fn k_send(_: i32, _: *const std::ffi::c_void, len: usize, _: i32) -> isize {
+    k_answer(len)
+}
+extern "C" fn k_writev(_: i32, _: *const libc::iovec, _: i32) -> isize {
+    k_answer(1)
+}
+
+/// readiness waits are answered "nothing became ready": the requested time passes
+fn wait_hook(_fd: i32, _write: bool, timeout_ns: u64) -> i32 {
+    WAITS.with(|w| w.set(w.get() + 1));
+    open_coroutine_core::verif::clock_set(open_coroutine_core::common::now().saturating_add(timeout_ns));
+    1
+}
+
+/// how long do the hooked calls of one direction really wait on this descriptor before they give up?
+/// (name of the call, virtual ns waited, return value)
+fn measured(fd: i32, write: bool) -> Vec<(&'static str, u64, isize)> {
+    let mut out = Vec::new();
+    let mut b = [0u8; 4];
+    let iov = [libc::iovec { iov_base: b.as_mut_ptr().cast(), iov_len: 4 }];
+    for call in if write { ["write", "send", "writev"] } else { ["read", "recv", "readv"] } {
+        let t0 = open_coroutine_core::common::now();
+        UNTIL.with(|u| u.set(t0 + CAP_NS));
+        let r: isize = match call {
+            "read" => { let f: extern "C" fn(i32, *mut std::ffi::c_void, usize) -> isize = k_read; sc::read(Some(&f), fd, b.as_mut_ptr().cast(), 4) }
+            "recv" => { let f: extern "C" fn(i32, *mut std::ffi::c_void, usize, i32) -> isize = k_recv; sc::recv(Some(&f), fd, b.as_mut_ptr().cast(), 4, 0) }
+            "readv" => { let f: extern "C" fn(i32, *const libc::iovec, i32) -> isize = k_readv; sc::readv(Some(&f), fd, iov.as_ptr(), 1) }
+            "write" => { let f: extern "C" fn(i32, *const std::ffi::c_void, usize) -> isize = k_write; sc::write(Some(&f), fd, b.as_ptr().cast(), 4) }
+            "send" => { let f: extern "C" fn(i32, *const std::ffi::c_void, usize, i32) -> isize = k_send; sc::send(Some(&f), fd, b.as_ptr().cast(), 4, 0) }
+            _ => { let f: extern "C" fn(i32, *const libc::iovec, i32) -> isize = k_writev; sc::writev(Some(&f), fd, iov.as_ptr(), 1) }
+        };
+        out.push((call, open_coroutine_core::common::now() - t0, r));
+    }
+    out
+}
 
 fn val_ns(v: usize) -> u64 {
     let (s, u) = VALS[v];
@@ -140,6 +204,20 @@ fn run_history(hist: &[Op], base: i32) -> Result<(), (String, String, String)> {
                     res = Err(("applied-limit-equals-current-option".into(), class.into(), at(format!("a hooked {} on this socket applies a limit of {applied}ns, the socket's current option value is {}", ["read", "write"][o], if want == u64::MAX { "0 (no limit)".to_string() } else { format!("{want}ns") }))));
                     break;
                 }
+                // ... and what the hooked calls of that direction really do when the kernel keeps
+                // answering would-block: give up after the limit, or go on waiting (no limit)
+                let mut bad = None;
+                for (call, waited, r) in measured(fd, o == 1) {
+                    let ok = if want == u64::MAX { r > 0 && waited >= CAP_NS } else { r == -1 && waited >= want && waited <= want + 10_000_000 };
+                    if !ok && bad.is_none() {
+                        bad = Some(format!("a hooked {call} whose kernel call keeps answering would-block returned {r} after {waited}ns of virtual time; the socket's current option value is {}", if want == u64::MAX { "0 (no limit: it has to go on waiting)".to_string() } else { format!("{want}ns") }));
+                    }
+                }
+                if let Some(d) = bad {
+                    let class = if reopened[s] { "after-close-and-descriptor-reuse" } else { "same-socket" };
+                    res = Err(("hooked-call-waits-as-long-as-the-option-says".into(), class.into(), at(d)));
+                    break;
+                }
             }
             Op::Close(s) => {
                 let _ = sc::close(None, base + s as i32);
@@ -173,6 +251,8 @@ fn exec(c: &Case, em: &mut Emitter) {
     std::panic::set_hook(Box::new(|_| {}));
     let lp = SyncLoop::new("c19-loop", 128 * 1024, 0, 1, 0).expect("loop");
     lp.enter();
+    open_coroutine_core::verif::clock_enable(1_000_000_000_000);
+    open_coroutine_core::verif::set_wait_hook(Some(wait_hook));
     let mut n = 0u64;
     let mut stack: Vec<Vec<Op>> = vec![c.prefix.clone()];
     let mut sigs: Vec<String> = Vec::new();
@@ -224,6 +304,7 @@ pub fn run(tier: &str, rep: &mut Report) {
         "symmetry": "the first operation goes to slot 0 (the slots are interchangeable)",
         "rejected_value": "0s2000000us is refused by the kernel with EDOM and must leave the applied limit alone",
         "ops": ["set(slot, SO_RCVTIMEO|SO_SNDTIMEO, value)", "io(slot, read|write)", "close(slot) through the hooked close", "open(slot) on the same descriptor number"],
+        "io_step": "compares send_time_limit/recv_time_limit with the option value AND measures, under a scripted kernel that keeps answering would-block, how long read/recv/readv resp. write/send/writev really wait",
         "dedup": "none: every history is executed"});
     rep.require(&["histories_with_descriptor_reuse"]);
     let cfg = RunCfg { hang_after: Duration::from_millis(4000), ..RunCfg::default() };
@@ -267,6 +348,8 @@ pub fn replay(v: &Value, em: &mut Emitter) -> bool {
     let h: Vec<Op> = h.iter().filter_map(Op::from_json).collect();
     let lp = SyncLoop::new("c19-loop", 128 * 1024, 0, 1, 0).expect("loop");
     lp.enter();
+    open_coroutine_core::verif::clock_enable(1_000_000_000_000);
+    open_coroutine_core::verif::set_wait_hook(Some(wait_hook));
     em.emit(json!({"t":"history","ops":h.iter().map(|o| o.to_json()).collect::<Vec<_>>()}));
     match run_history(&h, 200) {
         Ok(()) => em.emit(json!({"t":"ok"})),
